@@ -6,27 +6,31 @@ Theorems : lean/JRV/Properties/C11.lean
 Monitor  : harness/poolcommon.py: join()/join(t) return values against the completion state of the tasks accepted before
            the call, stop() returns in every explored schedule (deadlock / step-limit detection), all workers dead and
            fresh-pool accounting at the return of stop(), redundant start()/stop() are single no-op operations,
-           the same monitors across restarts.
+           the same monitors across restarts; join(0) / join(0.0) answer at once (never blocked) with the right Boolean.
+Assumed  : a finite pool `timeout` (hypothesis `cfg.timeoutNone = false` of C11_stop_no_stuck); pools built with
+           timeout=None are run for the correspondence and the safety monitors only (class N).
 """
 import poolcommon as pc
 
 REQUIRED_THEOREMS = [
-    "C11_join_true", "C11_join_timeout", "C11_idempotent_start", "C11_idempotent_stop",
+    "C11_join_true", "C11_join_timeout", "C11_join_true_running", "C11_join_timeout_true_running",
+    "C11_idempotent_start", "C11_idempotent_stop",
     "C11_workers_exit", "C11_no_sentinel", "C11_restart", "C11_workers_exit_restart", "C11_restart_start", "C11_restart_spawn", "C11_restart_reach", "C11_dead_forever",
     "C11_stop_no_stuck", "C11_stop_measure", "C11_stop_flag",
     "C11_gen_poolJoinShape", "C11_gen_poolUnlockedAccesses", "C11_gen_poolSpawnRefusal", "C11_gen_poolClearDecrementsTasksOnly",
+    "C11_gen_poolStartRollback",
 ]
 
-MIX = [(4, "L1", None), (3, "L2", None), (1, "G", None), (1, "W", None), (1, "GR", None)]
+MIX = [(4, "L1", None), (3, "L2", None), (1, "G", None), (1, "W", None), (1, "GR", None), (2, "S", None), (1, "F", None), (1, "N", None)]
 
 
 def run(ctx):
-    pc.check(ctx, "C11", MIX, 450, 9000)
+    pc.check(ctx, "C11", MIX, 400, 9000)
 
 
 def search(ctx):
     """Tie broken and no monitor hit yet: one bounded search for a failing input (no lockstep)."""
-    pc.check(ctx, "C11", MIX, 450, 3000)
+    pc.check(ctx, "C11", MIX, 450, 1500)
 
 
 def replay(payload):
